@@ -6,7 +6,7 @@ Environment:
   TALLY_VERIF_ROOT      only effects on paths under this directory are counted / logged
   TALLY_VERIF_LOG       ndjson effect log (must lie outside ROOT)
   TALLY_VERIF_CRASH_AT  k : os._exit(77) right after the k-th effect has been performed
-  TALLY_VERIF_TORN      f in [0,1): when the crashing effect is a write, only that fraction of the data reaches the disk
+  TALLY_VERIF_TORN      f in [0,1): when the crashing effect is a write (or a file copy), only that fraction of the data reaches the disk
   TALLY_VERIF_FAULT_AT  k : the k-th effect raises OSError(EIO) instead of being performed
 
 An "effect" is one externally visible mutation of the file system, at the granularity the code performs it:
@@ -137,6 +137,16 @@ if os.environ.get('TALLY_VERIF') == '1' and os.environ.get('TALLY_VERIF_ROOT'):
             if npaths == 2:
                 extra['dst'] = _rel(args[1]) if _under_root(args[1]) else os.fspath(args[1])
             k = _before(kind, args[0], **extra)
+            if kind == 'copy' and _CRASH_AT == k and _TORN < 1:
+                # a copy is a truncate-and-write of the destination: killed part-way, only a prefix of the source is there
+                with _real_open(args[0], 'rb') as src:
+                    data = src.read()
+                cut = int(len(data) * _TORN)
+                with _real_open(args[1], 'wb') as dst:
+                    dst.write(data[:cut])
+                _log(dict(k=k, kind=kind, path=_rel(args[0]), n=len(data), torn=cut, **extra))
+                _log(dict(k=k, crash=True))
+                os._exit(77)
             _state['nest'] += 1
             try:
                 r = real(*args, **kwargs)
